@@ -1,0 +1,16 @@
+//go:build verif
+
+// Contracts for package filter (machine-checked by /verif/bin/stickvc; comment-only file).
+package filter
+
+// Iteratee callbacks (may assume the loop metadata identities checked in stick.Iterate).
+//@ func filter.filterBatch$1
+//@   implements functype:stick.Iteratee
+//@ func filter.filterJoin$1
+//@   implements functype:stick.Iteratee
+//@ func filter.filterMerge$1
+//@   implements functype:stick.Iteratee
+//@ func filter.filterMerge$2
+//@   implements functype:stick.Iteratee
+//@ func filter.filterReplace$1
+//@   implements functype:stick.Iteratee
